@@ -367,6 +367,31 @@ def check_object(case, R):
             if not (ft == fresh and fresh == ft and hash(ft) == hash(fresh)) or dump.dtype(ft) != dump.dtype(fresh):
                 R.violation("nested-object-changed-by-use:" + fdesc[0], "model objects are immutable: using a type does not change the objects it is built from", {**one, "field": fdesc}, observed=dump.dtype(ft).get("bls"), expected=dump.dtype(fresh).get("bls"))
                 return
+        # ... and, innermost first, every type object reachable from it still has the bit length set of its own description (the
+        # reference layout, not another implementation object that may have been disturbed the same way)
+        def walk(desc, t):
+            dd = desc[1] if desc[0] in ("named",) else desc
+            if dd[0] in ("farr", "varr"):
+                yield from walk(dd[1], t.element_type)
+            elif dd[0] in ("struct", "union", "delim"):
+                inner_d = dd[1] if dd[0] == "delim" else dd
+                for fd, f in zip(inner_d[1], t.inner_type.fields):
+                    yield from walk(fd, f.data_type)
+            yield dd, t
+
+        for sd, st in walk(d, x):
+            if sd[0] in ("byte", "utf8"):
+                continue
+            try:
+                E = L.lengths(sd)
+            except L.TooBig:
+                continue
+            b = st.bit_length_set
+            got = [b.min, b.max, sorted(b % 32), sorted(b % 8), sorted(b % 5)]
+            exp = [min(E), max(E), sorted({e % 32 for e in E}), sorted({e % 8 for e in E}), sorted({e % 5 for e in E})]
+            if got != exp:
+                R.violation("nested-object-changed-by-use:deep:" + sd[0], "model objects are immutable: using a type does not change the objects it is built from, at any depth", {**one, "nested": sd}, observed=got, expected=exp)
+                return
         R.outcome("nested-after-use")
     # pickle
     R.case([cat, d, "pickle"], nontrivial=True, sample=False)
